@@ -1,5 +1,6 @@
 import ModVerif.Drv.MainLoop
 import ModVerif.Drv.Note
+import ModVerif.Drv.GenNote
 open ModVerif.Drv
 
-def main : IO Unit := runMain [("note", Note.handle)]
+def main : IO Unit := runMain [("note", Note.handle), ("gnote", GenNote.handle)]
